@@ -20,13 +20,17 @@ RULE = ("per generated cooler/option vector one HISTORY of executions of the rea
         "to nnz, tile the pass's pixel range without gap or overlap, rows returned sum to the range size; (3) "
         "parallel.split(...).pipe(count).reduce/gather == nnz for every chunk size. Non-trivial: >= 2 executions of a "
         "cooler with >= 10 pixels; distinct = (cooler, options, chunksize, map)")
-ASSUMPTIONS = ["if any run of a history stops with var within 1e-6 of tol, iteration counts may differ by one: that history "
+ASSUMPTIONS = ["`cooler balance --ignore-dist D` ignores max(--ignore-diags, ceil(D/binsize)) diagonals (every diagonal "
+               "that can hold contacts closer than D bp)",
+               "if any run of a history stops with var within 1e-6 of tol, iteration counts may differ by one: that history "
                "is inconclusive", "x0 is copied per run (balance_cooler mutates it)"]
 MIN_NONTRIVIAL = {"quick": 120, "thorough": 1200}
 REQUIRED_PROBES = ["pipe_reduce"]
 REQUIRED_FEATURES = ["map:builtin", "map:eager", "map:reverse-ordered", "map:unordered-permuted", "map:bursty-unordered",
                      "map:pool.map", "map:pool.imap", "map:pool.imap_unordered", "chunksize:1", "chunksize:None",
-                     "chunksize:nnz+1", "mode:gw", "mode:cis", "mode:trans", "split-pipeline", "via:cli-balance", "history:path-reused"]
+                     "chunksize:nnz+1", "mode:gw", "mode:cis", "mode:trans", "split-pipeline", "via:cli-balance", "history:path-reused",
+                     "history:long-lived-object-after-file-regenerated-with-more-pixels",
+                     "cli-balance:ignore-dist:not-a-multiple-of-binsize"]
 SHARD_TIMEOUT = {"quick": 1800, "thorough": 7200}
 
 
@@ -206,6 +210,19 @@ def one_history(ctx, shard, i, rng, idx):
                         fh.writelines(f"{a}\t{b}\t{e}\n" for a, b, e in gen.blacklist_bed(rng, bt, opts["blacklist"]))
                     args += ["--blacklist", bf]
                     c.feature("cli-balance:blacklist-bed")
+                ref_cli = ref
+                if rng.random() < 0.6:
+                    # --ignore-dist D (bp): every diagonal that can hold contacts closer than D is ignored, i.e.
+                    # max(--ignore-diags, ceil(D / binsize)) diagonals (bins are 100 bp wide here)
+                    D = (opts["ignore_diags"] + int(rng.integers(0, 2))) * 100 + int([0, 1, 50, 99][int(rng.integers(4))])
+                    D = max(D, 1)
+                    args += ["--ignore-dist", str(D)]
+                    kdiag = max(opts["ignore_diags"], -(-D // 100))
+                    c.feature("cli-balance:ignore-dist" + (":not-a-multiple-of-binsize" if D % 100 else ":multiple"))
+                    if kdiag != opts["ignore_diags"]:
+                        o_ = {k_: (v_.copy() if isinstance(v_, np.ndarray) else v_) for k_, v_ in opts.items()}
+                        o_["ignore_diags"] = kdiag
+                        ref_cli = ic.ref_ic(P, n, chrom_of, **o_)
                 r = CliRunner().invoke(cli, args)
                 c.feature("via:cli-balance", f"cli-balance:nproc={npr}")
                 if r.exit_code != 0:
@@ -213,10 +230,14 @@ def one_history(ctx, shard, i, rng, idx):
                 with h5py.File(path, "r") as f:
                     wcli = f["bins/wcli"][:]
                 with np.errstate(all="ignore"):
-                    same = np.array_equal(np.isnan(wcli), np.isnan(ref["bias"])) and \
-                        np.allclose(wcli, ref["bias"], rtol=1e-9, atol=0, equal_nan=True)
-                c.check(same, f"cli-balance-weights-differ:{mode}", f"`cooler {' '.join(args[2:])}` stored weights that differ "
-                        f"from the documented procedure / the API result", {"got": wcli, "ref": ref["bias"]})
+                    same = np.array_equal(np.isnan(wcli), np.isnan(ref_cli["bias"])) and \
+                        np.allclose(wcli, ref_cli["bias"], rtol=1e-9, atol=0, equal_nan=True)
+                tie_cli = bool(np.any(np.abs(np.atleast_1d(np.asarray(ref_cli["var"], dtype=float)) - opts["tol"]) <= 1e-6 * opts["tol"]))
+                if not same and tie_cli:
+                    c.inconclusive("CLI run: reference variance within 1e-6 of tol")
+                else:
+                    c.check(same, f"cli-balance-weights-differ:{mode}", f"`cooler {' '.join(args[2:])}` stored weights that differ "
+                            f"from the documented procedure / the API result", {"got": wcli, "ref": ref_cli["bias"]})
                 probes.collect_worker_events(ctx)
         # -------- cross-execution agreement
         cid = f"h:{shard['sub']}:{i}:agree"
@@ -288,6 +309,23 @@ def one_history(ctx, shard, i, rng, idx):
                 c.check(same, f"weights-depend-on-process-history:{mode2}",
                         f"after the file at the same path was replaced, {mode2}-only balancing does not give the weights "
                         f"of the documented procedure for the NEW data", {"got": b2, "ref": r2_["bias"]})
+            # ... and replaced once more by a cooler over the ORIGINAL bins holding more pixels; the Cooler object
+            # created before all of this is used again (its attributes are read live from the file)
+            P3 = {kk: int(rng.integers(1, 60)) for kk in gen.gen_pixels(rng, n, True, "dense")}
+            if len(P3) > nnz:
+                make_cooler(path, bt, P3)
+                c.feature("history:long-lived-object-after-file-regenerated-with-more-pixels")
+                o3 = dict(ignore_diags=1, mad_max=0, min_nnz=0, min_count=0, tol=1e-6, max_iters=200, rescale_marginals=True)
+                cs3 = [None, 3, max(nnz // 2, 1)][int(rng.integers(3))]
+                b3, st3 = cooler.balance_cooler(clr, chunksize=cs3, **o3)
+                r3 = ic.ref_ic(P3, n, chrom_of, **o3)
+                with np.errstate(all="ignore"):
+                    same = np.array_equal(np.isnan(b3), np.isnan(r3["bias"])) and \
+                        np.allclose(b3, r3["bias"], rtol=1e-9, atol=0, equal_nan=True)
+                c.check(same, "weights-depend-on-process-history:long-lived-object",
+                        f"a Cooler object opened before the file was regenerated (same bins, {len(P3)} instead of {nnz} pixels) "
+                        f"balanced with chunksize={cs3}: weights are not those of the data now in the file",
+                        {"got": b3, "ref": r3["bias"]})
             probes.collect_worker_events(ctx)
     perms = {p for p in perm_log}
     ctx.extra["distinct_adversarial_completion_orders"] = ctx.extra.get("distinct_adversarial_completion_orders", 0) + len(perms)
